@@ -390,6 +390,14 @@ func (l *listener) Accept() (transport.Pipe, error) {
 
 func (l *listener) handler(ws *websocket.Conn, req *http.Request) {
 	l.lock.Lock()
+	if l.closed {
+		// The listener was closed while this connection was being
+		// upgraded.  Close has already released everything that was
+		// pending, and nobody will accept this one: let it go.
+		l.lock.Unlock()
+		_ = ws.Close()
+		return
+	}
 
 	w := &wsPipe{
 		ws:      ws,
